@@ -226,5 +226,5 @@ pub fn case(tape: &[u8], ctx: &Ctx) -> Outcome {
 }
 
 pub fn property() -> Property {
-    Property { id: "C07", rule: RULE, phases: vec![Phase::Prop { name: "single-Finish compression into deflateBound / compressBound", f: case, quick: 300_000, thorough: 8_000_000, max_tape: 200 }] }
+    Property { id: "C07", rule: RULE, phases: vec![Phase::Prop { name: "single-Finish compression into deflateBound / compressBound", f: case, quick: 800_000, thorough: 12_000_000, max_tape: 200 }] }
 }
